@@ -27,6 +27,11 @@
   when `4·E ≤ S_P+S_N`, i.e. the error of the reading is the accumulated error RELATIVE TO THE
   WINDOW'S TOTAL FLOW — the condition number `c` of the property's wording.
 
+  `mfi_reading_rounding` composes everything for the value the indicator RETURNS (its last three
+  roundings included, `reading_err`, via the relative-error toolkit `Rel`): whenever the window's
+  exact total flow `D` is at least `4E` the ratio branch is taken and the output is within
+  `100·(2E/D + 12u)` of `100·S_P/(S_P+S_N)`.
+
   Proof: the L0 normal form `next_eq` / `next_eq_first` of the generated code (valid for every
   scalar), the abstraction invariant `Inv` (ring tracked exactly with `RingInv` behind two
   phantom zeros, as in `Lemmas/Exact/MoneyFlowIndex.lean`), and the arithmetic core `acc_step`
